@@ -232,6 +232,8 @@ def check(run):
         distribution=dict(dist), model_mismatches=len(mm), monitor_failures=len(ff),
         samples=[results[0]['spec'], results[len(results) // 2]['spec']] if results else []))
     run.coverage['trusted_base'] += [
+        'translator tools/gotocoq/ics20hook (go/ast): return statements / guards / statement shape of Keeper.OnRecvPacket and '
+        'IBCMiddleware -> Gen/Ics20HookGen.v, obligation C16_source_is_model',
         'hand-written model Model/Ics20.v tied to x/aggregate (middleware, hook, IBCDenom, ConvertCoin for standard tokens) and '
         'to ibc-go core RecvPacket by this differential run (generator bounds what it sees)',
         'harness plumbing: channel transfer/channel-0 written directly into the IBC store over a 09-localhost client (handshake '
@@ -276,6 +278,14 @@ def check(run):
         rs = run_specs(run.work, [small], 'final') or [results[h]]
         run.violation(dict(kind='monitor', code=k, what=KINDS.get(k), key=key, spec=small, observed=rs[0]['obs']),
                       name='replay_c%d_k%d.json' % (h, k))
+    if not run.quick() and run.proof_ok():
+        # independent re-check of the compiled closure by coqchk
+        mods = ['Teleport.Props.C16'] + ['Teleport.Refuted.' + f[:-2] for f in sorted(os.listdir(os.path.join(vlib.THEORIES, 'Refuted')))
+                                         if f.startswith('C16_') and f.endswith('.v')]
+        rc3, o3 = vlib.sh(['coqchk', '-silent', '-o', '-Q', vlib.THEORIES, 'Teleport'] + mods, cwd=vlib.COQ, timeout=1500)
+        run.coverage['coqchk'] = 'ok, axioms: none' if rc3 == 0 and 'Axioms: <none>' in o3 else 'FAILED'
+        if run.coverage['coqchk'] == 'FAILED':
+            run.violation(dict(kind='coqchk-failed', log=o3[-2000:]), name='replay_coqchk.json', no_input=True)
     if not run.violations:
         for h, s, k in mm[:1]:  # model and code disagree, property monitor silent
             small = shrink(run.work, results[h]['spec'], k, 'model')
